@@ -1,16 +1,17 @@
 import HcipyVerif.Model.Proto
 import HcipyVerif.Model.GridOps
 
-/-! Line-protocol front end of the C11 model: an object store of grids (see Model/GridOps.lean). -/
+/-! Line-protocol front end of the C11 model: an object store of grids plus the caller-owned arrays
+(see Model/GridOps.lean, `stepWorld`). -/
 namespace HcipyVerif.Driver.C11
 open HcipyVerif.Grid
 
 structure St where
-  grids : Store := []
+  world : World := {}
 
 def step (st : St) (toks : List String) : St × String :=
-  match stepStore st.grids toks with
-  | some (g, out) => ({ grids := g }, out)
+  match stepWorld st.world toks with
+  | some (w, out) => ({ world := w }, out)
   | none => (st, "bad-op")
 
 end HcipyVerif.Driver.C11
